@@ -472,6 +472,8 @@ def rule_to_timings(chk: Check, model: Model, rid: str):
     slot_st = [e for e in stores if not mentions(e.recv, "windows") and len(e.loops) == 1]
     win_st = [e for e in stores if len(e.loops) == 2]
     chk.floor(rid, "to_timings copy statements", len(slot_st) + len(win_st), 7)
+    if len(slot_st) + len(win_st) < 7:
+        return  # the fill is not written in a form this rule reads (reported above as an analysis error, not as a violation)
     keys = {e.key for e in stores}
     chk.add(rid, "all copies use the same slot index", len(keys) == 1, f"{len(keys)} different target index expressions in the copy statements", chk.loc(fi))
     srcidx = set()
@@ -587,7 +589,11 @@ def rule_to_timings(chk: Check, model: Model, rid: str):
         # every slot gets windows of its own (they are filled in place per slot afterwards): the empty windows are built whenever a slot
         # template is built, inside the slot's own iteration, and are what the template holds
         from . import flow as _flow
-        own = wn[0].loops[:len(sv[0].loops)] == sv[0].loops and _flow.equivalent(wn[0].guard, sv[0].guard) and any(x == wn[0].term for x in T.walk(_fields(sv[0].term).get("windows", T.NONE)))
+        w_field = _fields(sv[0].term).get("windows", T.NONE)
+        held = any(x == wn[0].term for x in T.walk(w_field)) or any(
+            e.kind == "store_sub" and e.term == wn[0].term and e.loops[:len(sv[0].loops)] == sv[0].loops and e.recv is not None and (e.recv == w_field or (e.recv[0] == "attr" and e.recv[2] == "windows"))
+            for e in r.events)  # (... or is put into the template's own, initially empty, table afterwards in the same iteration)
+        own = wn[0].loops[:len(sv[0].loops)] == sv[0].loops and _flow.equivalent(wn[0].guard, sv[0].guard) and held
         chk.add(rid, "template: every slot has its own window arrays", bool(own), f"the empty windows are built under {T.show(wn[0].guard)[:120]} (slot template under {T.show(sv[0].guard)[:80]}) and the "
                 f"template holds {T.show(_fields(sv[0].term).get('windows', T.NONE))[:120]}: windows shared between slots are overwritten by each other's fill", chk.loc(fi, wn[0].node))
         f = _fields(sv[0].term)
